@@ -1084,6 +1084,12 @@ def explore(ctx: Ctx):
             disc.append({"cls": "MultiCategorical", "param": "logits", "dims": list(dims), "values": list(v), "keys": keys})
             pv = sum((softmax64(v[offs[i] : offs[i + 1]]) for i in range(len(dims))), [])
             disc.append({"cls": "MultiCategorical", "param": "probs", "dims": list(dims), "values": pv, "keys": keys})
+    # product laws with classes of EXACTLY zero probability (one-hot components included): 0 * log 0 = 0 in the entropy
+    for dims in dimsets[:3]:
+        per = [[p for p in exact_prob_vectors(k) if (0.0 in p) or len(p) == 1][:: (1 if thorough else 2)][:4] + [[1.0 / k] * k] for k in dims]
+        for combo in itertools.product(*per):
+            if any(0.0 in p for p in combo):
+                disc.append({"cls": "MultiCategorical", "param": "probs", "dims": list(dims), "values": sum((list(p) for p in combo), []), "keys": keys})
     for last in ([0.0] * 130, [-30.0] * 129 + [0.0]):
         disc.append({"cls": "MultiCategorical", "param": "logits", "dims": [2, 130], "values": [0.0, 1.0] + last, "keys": keys})
     for c in disc:
